@@ -498,3 +498,35 @@ Lemma spec_header_drop_underscore rq ek :
                  rq_chunked := rq_chunked rq; rq_body := rq_body rq |} ek
   = spec_header rq ek.
 Proof. unfold spec_header. cbn [rq_version rq_chunked rq_body rq_fields]. rewrite field_values_drop_underscore. reflexivity. Qed.
+
+(* ------------------------------------------------------------------ *)
+(* the header lines are the CRLF-separated lines of the header block, folded
+   lines joined *)
+
+Lemma header_lines_go_gather ls : forall cur r out,
+  header_lines_go ls (cur :: r) = inr out -> out = rev r ++ gather cur ls.
+Proof.
+  induction ls as [|l ls IH]; intros cur r out; cbn [header_lines_go gather].
+  - intro H. injection H as <-. reflexivity.
+  - destruct l as [|c l']; [apply IH|].
+    destruct (has_cr_or_lf (c :: l')); [discriminate|].
+    change (ows c) with ((c =? 32) || (c =? 9)).
+    destruct ((c =? 32) || (c =? 9)).
+    + apply IH.
+    + intro H. apply IH in H. rewrite H. cbn [rev]. rewrite <- app_assoc. reflexivity.
+Qed.
+
+Lemma header_lines_go_unfold ls : forall out,
+  header_lines_go ls [] = inr out -> out = unfold_lines ls.
+Proof.
+  induction ls as [|l ls IH]; intro out; cbn [header_lines_go unfold_lines].
+  - intro H. injection H as <-. reflexivity.
+  - destruct l as [|c l']; [apply IH|].
+    destruct (has_cr_or_lf (c :: l')); [discriminate|].
+    destruct ((c =? 32) || (c =? 9)); [discriminate|].
+    intro H. apply header_lines_go_gather in H. exact H.
+Qed.
+
+Theorem get_header_lines_unfold header lines :
+  get_header_lines header = inr lines -> lines = unfold_lines (split header CRLF).
+Proof. apply header_lines_go_unfold. Qed.
